@@ -404,6 +404,7 @@ def run_C06(ctx, R):
     _per_config(ctx, R, parse.tab7)
     from .rules import shape
     _per_config(ctx, R, lambda units, r: shape.shp1(units, r, only_unit='cJSON.c'))
+    _per_config(ctx, R, shape.shp3)
 
 
 def run_C11(ctx, R):
@@ -681,10 +682,14 @@ PROPERTIES = {
             "child, the removed node has no links, exactly the replaced node is deleted). Five elements realise every aliasing "
             "pattern among head / predecessor / item / successor / tail; the premise that the editors store links at most one "
             "link away from a node they can name, and not inside loops, is checked, so longer lists add no new case. A single "
-            "edit only: sequences of edits follow because every edit is shown to re-establish the invariant it assumes.",
-        'not_decided': ['lookup by key (first match, case folding) and the object-keyed editors built on it (they resolve the key and '
-                        'then call the pointer-based editors that SHP1 covers)',
-                        'lookup semantics (first match, case folding)', 'success flags as values'],
+            "edit only: sequences of edits follow because every edit is shown to re-establish the invariant it assumes. SHP3: the "
+            "queries get_array_item, cJSON_GetArrayItem, cJSON_GetArraySize and get_object_item evaluated over the same abstract heaps "
+            "on every list of up to five elements (every index from below to beyond the range; every arrangement of the keys a/A/b on "
+            "up to four members with every name, both flag values): the element, the size, the first matching member the list model "
+            "has, and nothing written (a bounded statement, like SHP2).",
+        'not_decided': ['the object-keyed editors as wholes (they resolve the key through get_object_item, which SHP3 covers on short '
+                        'lists, and then call the pointer-based editors that SHP1 covers)',
+                        'lookup on objects of more than four members', 'success flags as values'],
     },
     'C11': {
         'run': run_C11, 'modules': ['tree', 'parse', 'utils', 'own'],
@@ -739,7 +744,7 @@ PROPERTIES = {
             "loop writes one byte for one plain byte and at most ceil(a/2) for a bytes led by a backslash (the UTF-16 arm through "
             "the value-set engine of TAB6: every successful path writes at most half of what it reports as consumed); one "
             "terminator behind the loop.",
-        'not_decided': ['leak freedom on every exit (OWN rules, C03/C08)',
+        'not_decided': [
                         'that the returned tree can be walked/printed/deleted (LST1 covers the tail link only)',
                         'absence of UB in arithmetic other than the int saturation template (TAB7)'],
     },
@@ -829,8 +834,7 @@ PROPERTIES = {
             "Decides these clauses, not the resolution semantics as a whole.",
         'not_decided': ['RFC 6901 resolution as a function of (document, pointer): which node is returned',
                         "the 'text not starting with / resolves to the root' defect named in the property (a missing "
-                        'comparison with no structural signature)', 'size_t overflow of the decoded index',
-                        'read bounds of the tokenisers (BND3, planned)'],
+                        'comparison with no structural signature)', 'size_t overflow of the decoded index'],
     },
     'C16': {
         'run': run_C16, 'modules': ['utils', 'own'],
